@@ -263,6 +263,8 @@ type c30Case struct {
 	// EmptyDoc: how a file without entries is written: 0 "{}", 1 a document of comments only (null),
 	// 2 "~", 3 "null"
 	EmptyDoc int `json:"empty_doc,omitempty"`
+	// EmptySection: how a client block without entries is written: 0 "c1:" (null), 1 "c1: {}", 2 "c1: ~"
+	EmptySection int `json:"empty_section,omitempty"`
 	Options  []c30Option                  `json:"options"`
 	ViaEnv   bool                         `json:"via_env"`
 	ProbeID  string                       `json:"probe_client"`
@@ -280,6 +282,11 @@ func genC30(t *rapid.T) c30Case {
 		c.File = map[string]map[uint16]string{}
 		for _, cl := range []string{"*", "c1", "c2"} {
 			n := rapid.IntRange(0, 3).Draw(t, "nfile")
+			if n == 0 && rapid.IntRange(0, 2).Draw(t, "empty_section") == 0 {
+				// the block is there, its entries are not (all commented out, say)
+				c.File[cl] = map[uint16]string{}
+				c.EmptySection = rapid.IntRange(0, 2).Draw(t, "empty_section_form")
+			}
 			for i := 0; i < n; i++ {
 				if c.File[cl] == nil {
 					c.File[cl] = map[uint16]string{}
@@ -374,6 +381,10 @@ func (c c30Case) configArgs(dir string) (args, env []string, err error) {
 		}
 		sort.Strings(cls)
 		for _, cl := range cls {
+			if len(c.File[cl]) == 0 {
+				fmt.Fprintf(&sb, "%s:%s\n", yamlQuote(cl), []string{"", " {}", " ~"}[c.EmptySection%3])
+				continue
+			}
 			fmt.Fprintf(&sb, "%s:\n", yamlQuote(cl))
 			var ids []int
 			for id := range c.File[cl] {
@@ -766,7 +777,7 @@ func contains(s []string, x string) bool {
 func TestC30(t *testing.T) {
 	vf.Check(t, vf.Prop[c30Case]{
 		ID: "C30", Name: "predefined-config",
-		Rule: "real binaries on loopback sockets: a YAML file (0-3 client blocks from {'*', c1, c2}, IDs 1-4, names incl. ones that need YAML quoting; a file without entries written as {}, as a document of comments only, as ~ or as null) and/or 0-4 --predefined-topic options ('name;id' and 'client;name;id', overlapping the file and each other, order significant), given by flags or by environment variables; a probe client ID inside or outside the configuration. bisquitt is probed with a PUBLISH on each predefined ID 1-4 (broker-side topic or dropped session), bisquitt-pub and bisquitt-sub with topic names the model knows for the probe client and one it does not (PUBLISH/SUBSCRIBE by predefined ID vs REGISTER/SUBSCRIBE by name). Non-trivial = a configuration with both a file and at least one option that overrides a file entry; distinct by case.",
+		Rule: "real binaries on loopback sockets: a YAML file (0-3 client blocks from {'*', c1, c2}, IDs 1-4, names incl. ones that need YAML quoting; a file without entries written as {}, as a document of comments only, as ~ or as null; a client block without entries written as 'c1:', 'c1: {}' or 'c1: ~') and/or 0-4 --predefined-topic options ('name;id' and 'client;name;id', overlapping the file and each other, order significant), given by flags or by environment variables; a probe client ID inside or outside the configuration. bisquitt is probed with a PUBLISH on each predefined ID 1-4 (broker-side topic or dropped session), bisquitt-pub and bisquitt-sub with topic names the model knows for the probe client and one it does not (PUBLISH/SUBSCRIBE by predefined ID vs REGISTER/SUBSCRIBE by name). Non-trivial = a configuration with both a file and at least one option that overrides a file entry; distinct by case.",
 		Assumptions: []string{"model mapping = the file's, overridden entry by entry by the options in order, two-field options under '*'", "an ID chosen by a tool passes if the model maps it back to the requested name for this client (C05's shadowing question is not double-reported)", "real time: a timeout is inconclusive (skipped)"},
 		Gen:         genC30,
 		Run:         runC30,
